@@ -581,7 +581,7 @@ def okAll3 (c : Cmd) : List Occ3 → Nat → Prop
   | [], _ => True
   | .long o :: rest, pc => o.ok c ∧ okAll3 c rest pc
   | .cluster o :: rest, pc => o.ok c ∧ okAll3 c rest pc
-  | .pos v :: rest, pc => NoSubTok c v ∧ Bytes.startsWith v [dash] = false ∧ (c.getPos pc).isSome = true ∧ okAll3 c rest (pc + 1)
+  | .pos v :: rest, pc => NoSubTok c v ∧ Bytes.startsWith v [dash] = false ∧ (∃ a, c.getPos pc = some a ∧ SinglePos a) ∧ okAll3 c rest (pc + 1)
 
 /-- the positional counter after the occurrences -/
 def pcAfter : List Occ3 → Nat → Nat
@@ -593,24 +593,27 @@ def pcAfter : List Occ3 → Nat → Nat
 
 abbrev Obs := Except EK (P × LoopEnd)
 
-/-- `X` resolves what is pending and then behaves like `Y` -/
-def RF (c : Cmd) (X Y : P → Obs) : Prop :=
-  ∀ p, p.flagSubSkip = 0 → X p = match resolvePending c p with
+/-- `X` resolves what is pending and then behaves like `Y` - for every state whose pending entry satisfies `J`
+(`J` excludes pending entries the continuation would rather extend than resolve) -/
+def RF (c : Cmd) (J : Option Pending → Prop) (X Y : P → Obs) : Prop :=
+  ∀ p, p.flagSubSkip = 0 → J p.pending → X p = match resolvePending c p with
     | (q, .ok ()) => Y q
     | (_, .error e) => .error e
 
-theorem RF.at_none {c : Cmd} {X Y : P → Obs} (h : RF c X Y) (p : P) (h0 : p.flagSubSkip = 0) (hn : p.pending = none) :
+theorem RF.at_none {c : Cmd} {J : Option Pending → Prop} {X Y : P → Obs} (h : RF c J X Y) (hJn : J none) (p : P)
+    (h0 : p.flagSubSkip = 0) (hn : p.pending = none) :
     X p = Y p := by
-  rw [h p h0, resolvePending_none c p hn]
+  rw [h p h0 (by rw [hn]; exact hJn), resolvePending_none c p hn]
 
-theorem RF.ofReact {c : Cmd} {K G : P → Obs} (h : RF c K G) (i : Option Ident) (a : Arg) (vals : List Bytes) :
-    RF c (fun p => match react c i .cmdline a vals none p with
+theorem RF.ofReact {c : Cmd} {J : Option Pending → Prop} {K G : P → Obs} (h : RF c J K G) (hJn : J none)
+    (i : Option Ident) (a : Arg) (vals : List Bytes) :
+    RF c J (fun p => match react c i .cmdline a vals none p with
             | (_, .error e) => .error e
             | (p1, .ok _) => K p1)
          (fun q => match react c i .cmdline a vals none q with
             | (_, .error e) => .error e
             | (p1, .ok _) => G p1) := by
-  intro p h0
+  intro p h0 _
   simp only
   cases hr : resolvePending c p with
   | mk q r =>
@@ -631,16 +634,17 @@ theorem RF.ofReact {c : Cmd} {K G : P → Obs} (h : RF c K G) (i : Option Ident)
         rw [hrc] at hp hf
         cases r1 with
         | error e => rfl
-        | ok x => exact h.at_none p1 (by rw [hf]; exact hq0) (by rw [hp]; exact hqn)
+        | ok x => exact h.at_none hJn p1 (by rw [hf]; exact hq0) (by rw [hp]; exact hqn)
 
-theorem RF.ofPend {c : Cmd} {K G : P → Obs} (h : RF c K G) (i : Ident) (a : Arg) (v : Bytes) (hfind : c.find a.id = some a) :
-    RF c (fun p => match resolvePending c p with
+theorem RF.ofPend {c : Cmd} {J : Option Pending → Prop} {K G : P → Obs} (h : RF c J K G) (i : Ident) (a : Arg) (v : Bytes)
+    (hfind : c.find a.id = some a) (hJp : J (some { id := a.id, ident := some i, rawVals := [v], trailingIdx := none })) :
+    RF c J (fun p => match resolvePending c p with
             | (_, .error e) => .error e
             | (q, .ok ()) => K { q with pending := some { id := a.id, ident := some i, rawVals := [v], trailingIdx := none } })
          (fun q => match react c (some i) .cmdline a [v] none q with
             | (_, .error e) => .error e
             | (p1, .ok _) => G p1) := by
-  intro p h0
+  intro p h0 _
   simp only
   cases hr : resolvePending c p with
   | mk q r =>
@@ -650,7 +654,7 @@ theorem RF.ofPend {c : Cmd} {K G : P → Obs} (h : RF c K G) (i : Ident) (a : Ar
     | ok u =>
       have hqn : q.pending = none := resolvePending_ok_pending c p q u hr
       simp only
-      rw [h _ (by exact hq0), resolvePending_some' c q a i v hqn hfind, react_none c _ _ _ _ _ q hqn]
+      rw [h _ (by exact hq0) hJp, resolvePending_some' c q a i v hqn hfind, react_none c _ _ _ _ _ q hqn]
       have hp := C01.reactCore_pending c (some i) .cmdline a [v] none q
       cases hrc : reactCore c (some i) .cmdline a [v] none q with
       | mk p1 r1 =>
@@ -659,22 +663,22 @@ theorem RF.ofPend {c : Cmd} {K G : P → Obs} (h : RF c K G) (i : Ident) (a : Ar
         | error e => rfl
         | ok x => rfl
 
-theorem RF.ofFlags {c : Cmd} {X Y : P → Obs} (h : RF c X Y) : ∀ (as : List Arg),
-    RF c (fun p => match runFlags c as p with
+theorem RF.ofFlags {c : Cmd} {J : Option Pending → Prop} {X Y : P → Obs} (h : RF c J X Y) (hJn : J none) : ∀ (as : List Arg),
+    RF c J (fun p => match runFlags c as p with
             | (_, .error e) => .error e
             | (p1, .ok ()) => X p1)
          (fun q => match runFlags c as q with
             | (_, .error e) => .error e
             | (p1, .ok ()) => Y p1)
   | [] => by
-    intro p h0
+    intro p h0 hJ
     simp only [runFlags]
-    rw [h p h0]
+    rw [h p h0 hJ]
   | a :: as => by
-    have ih := RF.ofFlags h as
-    have := RF.ofReact ih (some .short) a []
-    intro p h0
-    have hp := this p h0
+    have ih := RF.ofFlags h hJn as
+    have := RF.ofReact ih hJn (some .short) a []
+    intro p h0 hJ
+    have hp := this p h0 hJ
     have e1 : ∀ (Z : P → Obs) (p' : P), (match runFlags c (a :: as) p' with
         | (_, .error e) => (.error e : Obs)
         | (p1, .ok ()) => Z p1) =
@@ -813,12 +817,13 @@ theorem runAtomsK_pos (c : Cmd) (k : Nat → P → Obs) (a : Arg) (v : Bytes) (r
   simp only [hget]
 
 /-- two continuations that resolve-first to the same thing agree on every state -/
-theorem RF.congr_rhs {c : Cmd} {X Y : P → Obs} (h : RF c X Y) (p : P) (h0 : p.flagSubSkip = 0) (Y' : P → Obs)
+theorem RF.congr_rhs {c : Cmd} {J : Option Pending → Prop} {X Y : P → Obs} (h : RF c J X Y) (p : P) (h0 : p.flagSubSkip = 0)
+    (hJ : J p.pending) (Y' : P → Obs)
     (hY : ∀ q, q.pending = none → Y q = Y' q) :
     X p = match resolvePending c p with
       | (q, .ok ()) => Y' q
       | (_, .error e) => .error e := by
-  rw [h p h0]
+  rw [h p h0 hJ]
   cases hr : resolvePending c p with
   | mk q r =>
     cases r with
@@ -828,7 +833,7 @@ theorem RF.congr_rhs {c : Cmd} {X Y : P → Obs} (h : RF c X Y) (p : P) (h0 : p.
 /-! the step lemmas as the caller of the loop observes them -/
 
 theorem obs_pos_step (c : Cmd) (wf : C01.WF c) (sp : SimplePos c) (similar : Bytes → Bytes → Bool)
-    (v : Bytes) (hnsv : NoSubTok c v) (a : Arg) (hv : Bytes.startsWith v [dash] = false)
+    (v : Bytes) (hnsv : NoSubTok c v) (a : Arg) (hsingle : SinglePos a) (hv : Bytes.startsWith v [dash] = false)
     (ls : LoopSt) (rest : List Bytes) (p : P) (htr : ls.trailing = false) (hst : ls.st = .valuesDone)
     (hget : c.getPos ls.posCounter = some a) :
     obs c (loop c similar ls (v :: rest) p) =
@@ -837,7 +842,7 @@ theorem obs_pos_step (c : Cmd) (wf : C01.WF c) (sp : SimplePos c) (similar : Byt
       | (q, .ok ()) =>
         obs c (loop c similar { ls with posCounter := ls.posCounter + 1, validArgFound := true } rest
           { q with pending := some { id := a.id, ident := some .index, rawVals := [v], trailingIdx := none } }) := by
-  rw [loop_pos_step c wf sp similar v hnsv a hv ls rest p htr hst hget]
+  rw [loop_pos_step c wf sp similar v hnsv a hsingle hv ls rest p htr hst hget]
   cases resolvePending c p with
   | mk q r => cases r <;> rfl
 
@@ -955,10 +960,12 @@ theorem lsAfter_cons_cluster (ls : LoopSt) (o : COcc) (rest : List Occ3) :
 /-- **the refinement with a continuation**: the occurrences are observed as one `react` each; whatever follows them on
 the command line (`tail`) is met in the state they leave, with the loop state `lsAfter` -/
 theorem loop_clusters_then (c : Cmd) (wf : C01.WF c) (sp : SimplePos c) (pp : PlainPos c) (similar : Bytes → Bytes → Bool)
-    (tail : List Bytes) :
+    (tail : List Bytes) (J : Option Pending → Prop) (hJn : J none)
+    (hJocc : ∀ (a : Arg) (i : Ident) (v : Bytes), c.find a.id = some a → (a.index = none ∨ SinglePos a) →
+      J (some { id := a.id, ident := some i, rawVals := [v], trailingIdx := none })) :
     ∀ (occs : List Occ3) (ls : LoopSt), okAll3 c occs ls.posCounter → ls.trailing = false → ls.st = .valuesDone →
-      ∀ (G : P → Obs), RF c (fun p => obs c (loop c similar (lsAfter ls occs) tail p)) G →
-      RF c (fun p => obs c (loop c similar ls (occs.flatMap Occ3.spell ++ tail) p))
+      ∀ (G : P → Obs), RF c J (fun p => obs c (loop c similar (lsAfter ls occs) tail p)) G →
+      RF c J (fun p => obs c (loop c similar ls (occs.flatMap Occ3.spell ++ tail) p))
            (fun q => runAtomsK c (occs.flatMap Occ3.atoms) ls.posCounter q (fun _ q' => G q')) := by
   intro occs
   induction occs with
@@ -970,25 +977,27 @@ theorem loop_clusters_then (c : Cmd) (wf : C01.WF c) (sp : SimplePos c) (pp : Pl
     intro ls hok htr hst G hG
     cases oc with
     | pos v =>
-      obtain ⟨hnsv, hv, hsome, hok'⟩ := hok
-      cases hget : c.getPos ls.posCounter with
-      | none => rw [hget] at hsome; simp at hsome
-      | some a =>
+      obtain ⟨hnsv, hv, ⟨a, hget, hsingle⟩, hok'⟩ := hok
+      cases hget' : c.getPos ls.posCounter with
+      | none => rw [hget] at hget'; cases hget'
+      | some a' =>
+        have : a = a' := by rw [hget] at hget'; cases hget'; rfl
+        subst this
         obtain ⟨hfind, _⟩ := C01.getPos_spec wf hget
         rw [lsAfter_cons_pos] at hG
         have ih' := ih { ls with posCounter := ls.posCounter + 1, validArgFound := true } hok' htr hst G hG
-        have hrf := RF.ofPend ih' .index a v hfind
-        intro p h0
+        have hrf := RF.ofPend ih' .index a v hfind (hJocc a .index v hfind (Or.inr hsingle))
+        intro p h0 hJp
         simp only [List.flatMap_cons, Occ3.spell, Occ3.atoms, List.singleton_append, List.cons_append, List.nil_append]
-        rw [obs_pos_step c wf sp similar v hnsv a hv ls _ p htr hst hget]
-        exact hrf.congr_rhs p h0 _ (fun q _ => (runAtomsK_pos c _ a v _ _ q hget).symm)
+        rw [obs_pos_step c wf sp similar v hnsv a hsingle hv ls _ p htr hst hget]
+        exact hrf.congr_rhs p h0 hJp _ (fun q _ => (runAtomsK_pos c _ a v _ _ q hget).symm)
     | long o =>
       obtain ⟨⟨⟨hns, hname, hne, hutf, a, hget, htv⟩, hsep⟩, hok'⟩ := hok
       simp only [SOcc.toL] at hns hname hne hutf hget htv
-      obtain ⟨hfind, _⟩ := C01.findLong_spec wf hget
+      obtain ⟨hfind, hidx⟩ := C01.findLong_spec wf hget
       rw [lsAfter_cons_long] at hG
       have ih' := ih { ls with validArgFound := true } hok' htr hst G hG
-      intro p h0
+      intro p h0 hJp
       simp only [List.flatMap_cons, Occ3.spell, Occ3.atoms, List.singleton_append, List.append_assoc]
       have one : o.spell = [o.toL.spell] →
           obs c (loop c similar ls (o.spell ++ (rest.flatMap Occ3.spell ++ tail)) p) =
@@ -997,7 +1006,7 @@ theorem loop_clusters_then (c : Cmd) (wf : C01.WF c) (sp : SimplePos c) (pp : Pl
             | (_, .error e) => .error e := by
         intro hsp
         rw [hsp, List.singleton_append, obs_long_step c similar o.toL hns a hname hne hutf hget htv ls _ p htr hst]
-        exact (RF.ofReact ih' (some .long) a o.value.toList).congr_rhs p h0 _
+        exact (RF.ofReact ih' hJn (some .long) a o.value.toList).congr_rhs p h0 hJp _
           (fun q _ => (runAtomsK_long c _ o.name a o.value _ _ q hget).symm)
       cases hv : o.value with
       | none => rw [← hv]; exact one (by simp [SOcc.spell, hv])
@@ -1011,14 +1020,14 @@ theorem loop_clusters_then (c : Cmd) (wf : C01.WF c) (sp : SimplePos c) (pp : Pl
           simp only [List.cons_append, List.nil_append]
           rw [obs_sep_step c wf similar o.name v hns1 hnsv a hname hne hutf hget (by rw [htv, hv]; rfl) hvd hnum hreq hterm
             ls _ p htr hst]
-          exact (RF.ofPend ih' .long a v hfind).congr_rhs p h0 _
+          exact (RF.ofPend ih' .long a v hfind (hJocc a .long v hfind (Or.inl hidx))).congr_rhs p h0 hJp _
             (fun q _ => (runAtomsK_long c _ o.name a (some v) _ _ q hget).symm)
     | cluster o =>
       obtain ⟨⟨hnst, hnonempty, hflags, hopt⟩, hok'⟩ := hok
       obtain ⟨fs, hfsm, hfs⟩ := zipArgs c o.flags hflags
       rw [lsAfter_cons_cluster] at hG
       have ih' := ih { ls with validArgFound := true } hok' htr hst G hG
-      intro p h0
+      intro p h0 hJp
       simp only [List.flatMap_cons, Occ3.spell, Occ3.atoms, COcc.atoms, List.append_assoc]
       cases ho : o.opt with
       | none =>
@@ -1030,12 +1039,12 @@ theorem loop_clusters_then (c : Cmd) (wf : C01.WF c) (sp : SimplePos c) (pp : Pl
           apply hnst; simp [COcc.spell, ho, hfsm]
         simp only [COcc.spell, ho, List.singleton_append, List.append_nil, List.nil_append]
         rw [← hfsm, obs_flags_step c pp similar fs hns hfs hne ls _ p htr hst h0]
-        exact (RF.ofFlags ih' (fs.map (·.2))).congr_rhs p h0 _
+        exact (RF.ofFlags ih' hJn (fs.map (·.2))).congr_rhs p h0 hJp _
           (fun q _ => (runAtomsK_flags c _ fs hfs _ _ q).symm)
       | some x =>
         obtain ⟨ch, v, k⟩ := x
         obtain ⟨hch, hcd, a, hget, htv, hk⟩ := hopt ch v k ho
-        obtain ⟨hfind, _⟩ := C01.getShort_spec wf hget
+        obtain ⟨hfind, hidx⟩ := C01.getShort_spec wf hget
         -- the two one-token spellings share everything but the attached tail
         have attachedCase : ∀ (tl : Bytes), NoSubTok c (dash :: ((fs.map (·.1)).flatten ++ (ch ++ tl))) →
             (attachedOf tl).1 = some v → (a.requireEquals && !(attachedOf tl).2) = false →
@@ -1046,7 +1055,7 @@ theorem loop_clusters_then (c : Cmd) (wf : C01.WF c) (sp : SimplePos c) (pp : Pl
               | (_, .error e) => .error e := by
           intro tl hns hat hreq
           rw [obs_opt_step c pp similar fs hfs ch a hch hcd hget htv tl v hns hat hreq ls _ p htr hst h0]
-          refine (RF.ofFlags (RF.ofReact ih' (some .short) a [v]) (fs.map (·.2))).congr_rhs p h0 _ ?_
+          refine (RF.ofFlags (RF.ofReact ih' hJn (some .short) a [v]) hJn (fs.map (·.2))).congr_rhs p h0 hJp _ ?_
           intro q _
           rw [runAtomsK_flags c _ fs hfs]
           simp only [runAtomsK_short c _ ch a (some v) _ _ _ hget, Option.toList_some]
@@ -1067,7 +1076,7 @@ theorem loop_clusters_then (c : Cmd) (wf : C01.WF c) (sp : SimplePos c) (pp : Pl
           have hnsv : NoSubTok c v := by apply hnst; simp [COcc.spell, ho]
           simp only [COcc.spell, ho, List.cons_append, List.nil_append]
           rw [← hfsm, obs_optsep_step c wf pp similar fs hfs ch a hch hcd hget htv v hns hnsv hvd hnum hreq hterm ls _ p htr hst h0]
-          refine (RF.ofFlags (RF.ofPend ih' .short a v hfind) (fs.map (·.2))).congr_rhs p h0 _ ?_
+          refine (RF.ofFlags (RF.ofPend ih' .short a v hfind (hJocc a .short v hfind (Or.inl hidx))) hJn (fs.map (·.2))).congr_rhs p h0 hJp _ ?_
           intro q _
           rw [runAtomsK_flags c _ fs hfs]
           simp only [runAtomsK_short c _ ch a (some v) _ _ _ hget, Option.toList_some]
@@ -1086,12 +1095,12 @@ theorem loop_clusters (c : Cmd) (wf : C01.WF c) (sp : SimplePos c) (pp : PlainPo
       match resolvePending c p with
       | (q, .ok ()) => obsA (runAtoms c (occs.flatMap Occ3.atoms) ls.posCounter q)
       | (_, .error e) => .error e := by
-  have hend : RF c (fun p => obs c (loop c similar (lsAfter ls occs) [] p)) (fun q => .ok (q, .done)) := by
-    intro p' _
+  have hend : RF c (fun _ => True) (fun p => obs c (loop c similar (lsAfter ls occs) [] p)) (fun q => .ok (q, .done)) := by
+    intro p' _ _
     simp only [loop, obs]
     cases resolvePending c p' with
     | mk q r => cases r <;> rfl
-  have := loop_clusters_then c wf sp pp similar [] occs ls hok htr hst _ hend p hfss
+  have := loop_clusters_then c wf sp pp similar [] (fun _ => True) trivial (fun _ _ _ _ _ => trivial) occs ls hok htr hst _ hend p hfss trivial
   simp only [List.append_nil] at this
   rw [this]
   cases resolvePending c p with
@@ -1113,9 +1122,9 @@ theorem loop_then_subcommand (c : Cmd) (wf : C01.WF c) (sp : SimplePos c) (pp : 
       | (q, .ok ()) => runAtomsK c (occs.flatMap Occ3.atoms) ls.posCounter q
           (fun _ q' => .ok (q', .sub sc rest false (ls.validArgFound || !occs.isEmpty)))
       | (_, .error e) => .error e := by
-  have hend : RF c (fun p => obs c (loop c similar (lsAfter ls occs) (name :: rest) p))
+  have hend : RF c (fun _ => True) (fun p => obs c (loop c similar (lsAfter ls occs) (name :: rest) p))
       (fun q => .ok (q, .sub sc rest false (ls.validArgFound || !occs.isEmpty))) := by
-    intro p' _
+    intro p' _ _
     have h1 : (lsAfter ls occs).trailing = false := htr
     have h2 : (lsAfter ls occs).st = .valuesDone := hst
     have h3 : (lsAfter ls occs).validArgFound = (ls.validArgFound || !occs.isEmpty) := rfl
@@ -1125,7 +1134,7 @@ theorem loop_then_subcommand (c : Cmd) (wf : C01.WF c) (sp : SimplePos c) (pp : 
     simp only [h1, Bool.false_eq_true, ↓reduceIte, h2, BEq.rfl, Bool.or_true, h3, hsub, hnh, obs]
     cases resolvePending c p' with
     | mk q r => cases r <;> rfl
-  exact loop_clusters_then c wf sp pp similar (name :: rest) occs ls hok htr hst _ hend p hfss
+  exact loop_clusters_then c wf sp pp similar (name :: rest) (fun _ => True) trivial (fun _ _ _ _ _ => trivial) occs ls hok htr hst _ hend p hfss trivial
 
 /-- the way a key was written (short or long) does not matter to `react` -/
 theorem react_short_long (c : Cmd) (s : Source) (a : Arg) (vals : List Bytes) (t : Option Nat) (p : P) :
@@ -1238,7 +1247,7 @@ example :
   have ns : ∀ tok, NoSubTok c tok := noSubTok_of_no_subs c rfl
   have ok1 : okAll3 c l1 1 := by
     refine ⟨⟨fun tok _ => ns tok, Or.inl (by decide), flagsOk, fun ch v k h => (noOpt _ ch v k h).elim⟩,
-      ⟨fun tok _ => ns tok, Or.inr rfl, ?_, ?_⟩, ns _, by decide, by decide, trivial⟩
+      ⟨fun tok _ => ns tok, Or.inr rfl, ?_, ?_⟩, ns _, by decide, ⟨_, rfl, by decide⟩, trivial⟩
     · intro ch hch; cases hch
     · intro ch v k h
       have h' : ([111], [118], Attach.eq) = (ch, v, k) := Option.some.inj h
@@ -1247,7 +1256,7 @@ example :
   have ok2 : okAll3 c l2 1 := by
     refine ⟨⟨fun tok _ => ns tok, Or.inl (by decide), fun ch hch => flagsOk ch ?_, fun ch v k h => (noOpt _ ch v k h).elim⟩,
       ⟨fun tok _ => ns tok, Or.inl (by decide), fun ch hch => flagsOk ch ?_, fun ch v k h => (noOpt _ ch v k h).elim⟩,
-      ⟨⟨ns _, by decide, by decide, by decide, oo, hL, by decide⟩, ?_⟩, ns _, by decide, by decide, trivial⟩
+      ⟨⟨ns _, by decide, by decide, by decide, oo, hL, by decide⟩, ?_⟩, ns _, by decide, ⟨_, rfl, by decide⟩, trivial⟩
     · simp at hch; simp [hch]
     · simp at hch; simp [hch]
     · intro _ v hv a ha
@@ -1326,7 +1335,7 @@ example :
     have : s = sub := by simpa [c, Cmd.subs] using hs
     subst this
     exact ⟨by decide, by intro al hal; cases hal⟩
-  refine ⟨⟨⟨?_, Or.inl (by decide), ?_, by intro ch v k h; cases h⟩, ?_, by decide, by decide, trivial⟩, by decide, by decide, by decide⟩
+  refine ⟨⟨⟨?_, Or.inl (by decide), ?_, by intro ch v k h; cases h⟩, ?_, by decide, ⟨_, rfl, by decide⟩, trivial⟩, by decide, by decide, by decide⟩
   · intro tok htok
     have : tok = [dash, 97] := by simpa [COcc.spell] using htok
     subst this
